@@ -217,7 +217,9 @@ class Executor:
         self.max_samples = 40
         self.sample_every = 1
         self.stop_after_findings = 0
+        self.hang_is_finding = False
         self.solver = z3.Solver()
+        self.solver.set('timeout', 30000)
         self.sstack = []  # constraints currently pushed
         self.gaddr = {}
         self.faddr = {}
@@ -617,6 +619,68 @@ class Executor:
                 raise Finding('limit', 'too many values for ' + what)
         return out
 
+    def fork_values(self, st, v, what, limit=64):
+        """All feasible concrete values of v, one successor state each: [(state, value)]."""
+        if not is_sym(v):
+            return [(st, v)]
+        v = z3.simplify(bv(v, v.size()) if not isinstance(v, DBits) else bv(v, 64))
+        if z3.is_bv_value(v):
+            return [(st, v.as_long())]
+        if self.replay is not None:
+            k = self.next_decision()
+            st.pc.append(v == k)
+            st.model = None
+            st.trace = (st.trace, k)
+            return [(st, k)]
+        vals = sorted(self.concretize(st, v, what, limit))
+        if not vals:
+            raise PathEnd()
+        out = []
+        base = st.trace
+        for i, k in enumerate(vals):
+            s2 = st.clone() if i < len(vals) - 1 else st
+            s2.pc.append(v == k)
+            s2.model = None
+            s2.trace = (base, k)
+            out.append((s2, k))
+        self.stats['forks'] += len(vals) - 1
+        return out
+
+    def fork_call(self, st, ins, args, idxs, body):
+        """Concretise args[i] for i in idxs by forking, then run body(state, args) in every successor.
+        Returns the list of successor states (result register set)."""
+        combos = [(st, list(args))]
+        for i in idxs:
+            nxt = []
+            for s_, a_ in combos:
+                for s2, val in self.fork_values(s_, a_[i], 'argument %d of %s' % (i, ins.a[1] if ins.a[0] == 'g' else '?')):
+                    a2 = list(a_)
+                    a2[i] = val
+                    nxt.append((s2, a2))
+            combos = nxt
+        out = []
+        for s2, a2 in combos:
+            try:
+                r = body(s2, a2)
+            except Finding as f:
+                if self.replay is not None:
+                    raise
+                self.stats['paths'] += 1
+                try:
+                    mdl = self.check(s2)
+                except Finding:
+                    mdl = None
+                self.report(s2, f.kind, f.msg, mdl)
+                if f.kind in ('limit', 'unknown'):
+                    self.stats['inconclusive'] = self.stats.get('inconclusive', 0) + 1
+                continue
+            if ins.dst is not None:
+                s2.frames[-1].regs[ins.dst] = r
+            out.append(s2)
+        if not out:
+            raise PathEnd('pruned')
+        return out
+
     def mem_copy(self, st, dst, src, n):
         if n == 0:
             return
@@ -1006,6 +1070,7 @@ class Executor:
         work = deque([st0])
         t0 = time.time()
         self.max_steps = max_steps
+        self.deadline = t0 + timeout + 30
         self.frontier = []
         while work:
             el = time.time() - t0
@@ -1110,7 +1175,10 @@ class Executor:
             st.steps += 1
             self.stats['instrs'] += 1
             if st.steps > max_steps:
-                raise Finding('limit', 'step limit')
+                raise Finding('hang' if self.hang_is_finding else 'limit',
+                              'no termination within %d IR steps, at %s' % (max_steps, self.where(st)))
+            if not st.steps & 0xffff and time.time() > self.deadline:
+                raise Finding('limit', 'time limit inside one path (%d steps) at %s' % (st.steps, self.where(st)))
             op = ins.op
             regs = fr.regs
             if op == 'load':
@@ -1364,17 +1432,80 @@ def x_free(ex, st, fr, ins, args):
 
 
 def x_memcpy(ex, st, fr, ins, args):
-    n = _conc_size(ex, st, args[2], 'memcpy')
-    if is_sym(args[0]) or is_sym(args[1]):
-        raise Finding('limit', 'symbolic memcpy pointer')
-    ex.mem_copy(st, args[0], args[1], n)
+    if is_sym(args[0]) or is_sym(args[1]) or is_sym(args[2]):
+        def body(s2, a):
+            ex.mem_copy(s2, a[0], a[1], a[2])
+            return a[0]
+        return ex.fork_call(st, ins, args, [i for i in (2, 0, 1) if is_sym(args[i])], body)
+    ex.mem_copy(st, args[0], args[1], args[2])
     return args[0]
 
 
 def x_memset(ex, st, fr, ins, args):
-    n = _conc_size(ex, st, args[2], 'memset')
-    ex.mem_set(st, args[0], args[1], n)
+    if is_sym(args[0]) or is_sym(args[2]):
+        def body(s2, a):
+            ex.mem_set(s2, a[0], a[1], a[2])
+            return a[0]
+        return ex.fork_call(st, ins, args, [i for i in (2, 0) if is_sym(args[i])], body)
+    ex.mem_set(st, args[0], args[1], args[2])
     return args[0]
+
+
+_FMT = __import__('re').compile(r'%([-+ #0]*)(\*|\d+)?(?:\.(\*|\d+))?(hh|h|ll|l|z|j|t|L)?([diuxXcsfgeG%])')
+
+
+def x_snprintf(ex, st, fr, ins, args):
+    args = list(args)
+    dbl = [i for i, a in enumerate(args) if isinstance(a, IntD)]
+    for i in dbl:
+        args[i] = args[i].e  # fork over the integer values of integer-valued doubles
+    symi = [i for i, a in enumerate(args) if i != 2 and is_sym(a) and not z3.is_fp(a)]
+
+    def body(s2, a):
+        a = list(a)
+        for i in dbl:
+            a[i] = float(sgn(a[i], 64)) if not is_sym(a[i]) else a[i]
+        return _snprintf(ex, s2, a)
+    if symi:
+        return ex.fork_call(st, ins, args, symi, body)
+    return body(st, args)
+
+
+def _snprintf(ex, st, args):
+    buf, size, fmt = args[0], args[1], ex.cstring(st, args[2])
+    rest = list(args[3:])
+    out = []
+    pos = 0
+    for m in _FMT.finditer(fmt):
+        out.append(fmt[pos:m.start()])
+        pos = m.end()
+        flags, width, prec, _len, conv = m.groups()
+        if conv == '%':
+            out.append('%')
+            continue
+        if width == '*':
+            width = str(sgn(rest.pop(0), 32))
+        if prec == '*':
+            prec = str(sgn(rest.pop(0), 32))
+        a = rest.pop(0)
+        if conv == 's':
+            a = ex.cstring(st, a)
+        elif is_sym(a):
+            raise Finding('limit', 'snprintf of a symbolic value')
+        elif conv in 'di':
+            a = sgn(a, 64 if _len in ('l', 'll', 'z', 'j', 't') else 32)
+        elif conv == 'c':
+            a = chr(a & 0xff)
+        spec = '%' + flags + (width or '') + ('.' + prec if prec is not None else '') + (conv if conv != 'i' else 'd')
+        out.append(spec % a)
+    out.append(fmt[pos:])
+    text = ''.join(out).encode('latin1')
+    if size > 0:
+        w = text[:size - 1] + b'\0'
+        ex.resolve(st, buf, len(w), True)
+        for i, b in enumerate(w):
+            ex.store_c(st, buf + i, 1, 'i', b)
+    return len(text)
 
 
 def x_noop0(ex, st, fr, ins, args):
@@ -1667,7 +1798,7 @@ EXTERNS = {
     '@llvm.memcpy.p0i8.p0i8.i64': x_memcpy, '@llvm.memmove.p0i8.p0i8.i64': x_memcpy,
     '@llvm.memset.p0i8.i64': x_memset, '@memcpy': x_memcpy, '@memmove': x_memcpy, '@memset': x_memset,
     '@fprintf': x_noop0, '@printf': x_noop0, '@fputs': x_noop0, '@fputc': x_noop0,
-    '@abort': x_abort, '@__assert_fail': x_assert_fail,
+    '@abort': x_abort, '@snprintf': x_snprintf, '@__assert_fail': x_assert_fail,
     '@sym_i32': x_sym_i32, '@sym_i8': x_sym_i8, '@sym_fail_alloc_at': x_fail_alloc_at, '@sym_readonly': x_sym_readonly, '@sym_i64': x_sym_i64, '@sym_f64': x_sym_f64, '@sym_f64_int': x_sym_f64_int,
     '@sym_assume': x_sym_assume, '@sym_choice': x_sym_choice, '@sym_assert': x_sym_assert, '@sym_reach': x_sym_reach,
     '@llvm.fabs.f64': x_fabs, '@tsk_generate_uuid': x_uuid, '@sym_file_new': x_file_new, '@sym_file_rewind': x_file_rewind,
